@@ -174,8 +174,38 @@ func c05Outcome(dict map[string]any, err error) any {
 }
 
 // c05Env prepares the loader inputs the way LoadWithContext → loadYamlFile would for the main file.
+// c05Materialize writes the files and replaces the placeholder $ROOT (the temporary root, unknown to the generator)
+// in their contents: references spelled as absolute paths, in particular the main file's own name.
+func c05Materialize(files map[string]string) (string, error) {
+	root, err := core.Materialize(files)
+	if err != nil {
+		return root, err
+	}
+	for p, content := range files {
+		if strings.Contains(content, "$ROOT") {
+			if err := os.WriteFile(filepath.Join(root, p), []byte(strings.ReplaceAll(content, "$ROOT", root)), 0o644); err != nil {
+				return root, err
+			}
+		}
+	}
+	return root, nil
+}
+
+// c05Subst replaces $ROOT in a tagged tree.
+func c05Subst(t core.T, root string) core.T {
+	b, err := json.Marshal(t)
+	if err != nil || !strings.Contains(string(b), "$ROOT") {
+		return t
+	}
+	var out any
+	if json.Unmarshal([]byte(strings.ReplaceAll(string(b), "$ROOT", root)), &out) != nil {
+		return t
+	}
+	return out
+}
+
 func c05Env(t c05Tree) (root string, ctx context.Context, opts *loader.Options, mainAbs string, err error) {
-	root, err = core.Materialize(t.render())
+	root, err = c05Materialize(t.render())
 	if err != nil {
 		return
 	}
@@ -313,6 +343,7 @@ func realC05Apply(raw json.RawMessage) any {
 	if err != nil {
 		return map[string]any{"bad": err.Error()}
 	}
+	a.Dict = c05Subst(a.Dict, root)
 	dict0, _ := core.DecodeVal(a.Dict).(map[string]any)
 	fs := c05FS(ctx, opts, filepath.Join(root, a.WD), mainAbs, dict0)
 	dict, _ := core.DecodeVal(a.Dict).(map[string]any)
@@ -614,6 +645,7 @@ func realC05Order(raw json.RawMessage) any {
 	if err != nil {
 		return map[string]any{"bad": err.Error()}
 	}
+	a.Dict = c05Subst(a.Dict, root)
 	dict0, _ := core.DecodeVal(a.Dict).(map[string]any)
 	svcs, _ := dict0["services"].(map[string]any)
 	var names []string
@@ -724,7 +756,8 @@ func init() {
 			json.Unmarshal(args, &a)
 			var r c05ApplyReal
 			json.Unmarshal(real, &r)
-			return map[string]any{"main": r.Main, "dict": a.Dict, "fs": r.FS}
+			root := strings.TrimSuffix(r.Main, "/"+a.Main)
+			return map[string]any{"main": r.Main, "dict": c05Subst(a.Dict, root), "fs": r.FS}
 		},
 		Judge:   judgeC05Apply,
 		Timeout: 20 * time.Second,
